@@ -227,6 +227,22 @@ CHECKS["C18"] = dict(
          "schedules the Go runtime produced (sampled). Hooks cover the known shared state; other shared state introduced by a change is "
          "visible to the race detector and to the result comparison only.",
     technique="TLA+ ownership/interleaving model checked exhaustively by TLC (incl. rejected mutated designs) + trace validation of race-detector runs with access hooks")
+CHECKS["C12"] = dict(
+    category="model_checking",
+    text="spec/EncTotality.tla states the contract of Writer.Encode as a call/return automaton: T (no panic, no hang, exactly one of matrix / "
+         "error), R (certain refusals: empty contents, foreign format, negative size, out-of-range hint values, contents the symbology cannot "
+         "hold), A (certain acceptance), D (the depicted symbol is a symbol of the symbology able to hold the contents - QR 17+4v with ISO 18004 "
+         "capacities, the Table-7 sizes admitted by shape/min/max hints, 1-D module counts - and the matrix is >= the symbol and, for QR / 1-D, "
+         ">= max(requested, 1)). TLC model-checks the contract (never contradictory, always satisfiable, excludes panic / hang / neither / both "
+         "and every too-small matrix, met by the reference rendering of Render.tla) and enumerates the configuration space as generated cases "
+         "(11 writers x 17 formats x 7x7 size classes, every hint value in / out of range for 10 hint keys, hint combinations: 17 136 "
+         "configurations). The driver replays them x content classes (empty, 1 char, 4000 bytes, invalid UTF-8, non-Latin, per-symbology "
+         "boundary contents, seeded bytes) plus Data Matrix (mode machine under size hints) and Code 128 families on the real writers, each "
+         "call in a worker process under recover() and a CPU-time watchdog; TLC judges every call. Thorough replays the whole space.",
+    design_ref="DESIGN.md section 6 C12",
+    note="Trusted: TLC; EncTotality.tla with QRTables / DMTables / OneD / Charset; harness/c12 (hang = 2 s of processor time or 30 s wall). Hint values "
+         "of the documented types only; sizes up to 10x the symbol, margins up to 2000.",
+    technique="TLA+ call/return contract of Writer.Encode; TLC model checking of the contract + TLC enumeration of the configuration space + trace validation of real calls")
 
 NOT_YET = {
 }
